@@ -373,6 +373,37 @@ PROPS = {
                       "closeDoneChanLocked, serveListener's exit, serveConn's loop and exit, readRequest's counting, processOneRequest's "
                       "un-counting. Partial where named under assumptions (the decode-to-increment window).",
     },
+    "C08": {
+        "generated": ["gowrites2v"],
+        "rule": "forced write schedules: every transport Write of the connection under test is held before it touches its bytes; "
+                "writers (server side: responses, heartbeat echoes, server pushes, sync / async write mode, with / without worker "
+                "pool; client side: Go, one-way Go, SendRaw) are started one at a time and their writes let through in a chosen "
+                "order with further writers started in between; payloads 0 B - 70 KB (thorough: 1 MiB), on and off the buffer "
+                "pool's size classes; the peer reads in random-sized pieces; 40 % of the cases on a single P (the pool then hands "
+                "a returned buffer out again at once). systematic part: (one writer finishes, two overlap and are released in "
+                "reverse order) for every triple of writer kinds; random part 150 (thorough 4000). non-trivial = at least two writes",
+        "theorems": ["C08_stream_is_whole_frames", "C08_peer_decodes_what_was_sent", "C08_each_frame_at_most_once",
+                     "C08_discipline_suffices", "C08_every_site_follows_the_discipline"],
+        "assumptions": ["net.Conn: the bytes of one Write call are contiguous in the stream (the transport's own write lock), and "
+                        "the reader sees the concatenation of the writes however it is segmented (io.ReadFull)",
+                        "sync.Pool hands out only buffers that were put (any of them, or a new one)",
+                        "kcp / quic / websocket transports implement net.Conn with the same guarantee (not exercised)"],
+        "trusted": ["tools/gowrites2v (go/ast translator: every function that materialises a frame with EncodeSlicePointer becomes the "
+                    "list of its pool / transport operations per control-flow path, helpers of the same package inlined; regenerated on "
+                    "every run into Wire/SharedGen.v; refuses anything else that touches the buffer)",
+                    "harness/cmd/vh/c08.go: the gate in front of the transport, the independent frame splitter (refcodec), the frame "
+                    "prediction (what each writer must send, built without the library's encoder)"],
+        "level_text": "Theorem for any number of writers, any messages, every schedule of their pool and transport operations and every "
+                      "choice of pooled buffer: if every writer follows the discipline Get; Fill; Write; Put (checked, by computation in "
+                      "the kernel, for every control-flow path of every write site regenerated from the Go source on each run), the "
+                      "stream is the concatenation of whole frames, one per write, each the frame its writer sent, and the reference "
+                      "decoder recovers exactly the messages sent. The stream of the real client / server under forced write orders is "
+                      "compared byte for byte (hash) with the model's.",
+        "level_note": "Trusted: Coq kernel (vm_compute for the finite site list), the translator gowrites2v, extraction, the harness. "
+                      "Modelled, not verified: client.send / SendRaw, Server.sendResponse / SendMessage / heartbeat echo, Context.Write / "
+                      "WriteError (as operation sequences), EncodeSlicePointer (byte level, shared with C01), bufferPool (as a set of "
+                      "free buffers).",
+    },
     "C12": {
         "rule": "exhaustive weight vectors (quick: n<=3,w<=4 and n=4,w<=2; thorough: n<=4,w<=6) from a random window "
                 "offset, round-robin sets n=0..8 from every cursor offset, and random update/selection histories over a "
